@@ -502,14 +502,22 @@ def run_objects_on_files(acc):
     from oslo_policy import _parser, policy as P
     exprs = ['rule:adm', 'rule:via', 'not rule:adm',
              '(role:nobody or rule:via)', 'rule:reg', 'rule:nowhere']
-    for first_by_name in (False, True):
+    # layout: the rules live in the main policy file, or there is no main
+    # file at all and policy.d holds them
+    for first_by_name, layout in itertools.product((False, True),
+                                                   ('main', 'dironly')):
+        path = 'policy.yaml' if layout == 'main' else 'policy.d/a.json'
         for expr in exprs:
             w = world.FileWorld()
             try:
-                w.write('policy.yaml', world.dumps_policy(
+                if layout == 'dironly':
+                    w.mkdir('policy.d')
+                w.write(path, world.dumps_policy(
                     {'adm': 'role:x', 'via': 'rule:adm', 'default': 'role:d'},
                     'json'))
-                enf = P.Enforcer(world.new_conf(w.root, policy_dirs=[]))
+                enf = P.Enforcer(world.new_conf(
+                    w.root, policy_dirs=['policy.d']
+                    if layout == 'dironly' else []))
                 enf.register_default(P.RuleDefault('reg', 'role:r'))
                 if first_by_name:
                     enf.enforce('adm', {}, {'roles': []})
@@ -517,7 +525,7 @@ def run_objects_on_files(acc):
                        'default': 'role:d', 'reg': 'role:r'}
                 for step in (0, 1):
                     if step:
-                        w.write('policy.yaml', world.dumps_policy(
+                        w.write(path, world.dumps_policy(
                             {'adm': 'role:y', 'via': 'rule:adm',
                              'default': 'role:x'}, 'json'))
                         cur.update({'adm': 'role:y', 'default': 'role:x'})
@@ -530,8 +538,8 @@ def run_objects_on_files(acc):
                                            {'roles': list(roles)})
                         if got != ('ok', exp):
                             acc.violation(
-                                'S4|object-on-files|%s|%s' % (
-                                    'fresh' if not (first_by_name or step)
+                                'S4|object-on-files|%s|%s|%s' % (
+                                    layout, 'fresh' if not (first_by_name or step)
                                     else 'after-edit' if step else 'loaded',
                                     'allows' if got == ('ok', True) else
                                     'denies' if got[0] == 'ok' else got[1]),
@@ -543,7 +551,8 @@ def run_objects_on_files(acc):
                                  first_by_name else 'loaded', got, exp),
                                 {'expr': expr, 'roles': list(roles),
                                  'step': step,
-                                 'first_by_name': first_by_name}, exp, got,
+                                 'first_by_name': first_by_name,
+                                 'layout': layout}, exp, got,
                                 'S4')
                         acc.outcome('object-on-files-%s' % exp)
                     acc.case('S4', True)
